@@ -107,13 +107,17 @@ func (t *template) layout(ctx context.Context, w io.Writer) error {
 	maxDepth := 100
 	depth := 0
 	var inheritedSlotScope *SlotScope // Slots defined in child templates (as DOM nodes)
+	visited := make(map[string]bool)  // Files already rendered as a link of this chain
 
 	// Build layout chain and render intermediate templates
 	for {
-		if depth >= maxDepth {
+		// A layout that comes up a second time makes the chain circular. Report it right
+		// away: every further round embeds the previous output, which can double in size.
+		if depth >= maxDepth || (!isFirstTemplate && visited[filename]) {
 			return fmt.Errorf("layout chain depth exceeded maximum of %d, possible circular dependency", maxDepth)
 		}
 		depth++
+		visited[filename] = !isFirstTemplate
 
 		// Create a fresh buffer for each iteration
 		buf := new(bytes.Buffer)
